@@ -41,15 +41,24 @@ func (e *Exec) tryInline(call *ast.CallExpr, st *State, ctx *Ctx, k func(*State,
 // parameters), not recursive, no loop, no function literal, no defer/go. Everything else without a contract stays an
 // unconstrained result at the call site.
 func (e *Exec) autoInlinable(fi *FuncInfo) bool {
+	return e.w.helperInlinable(fi) && e.w.scc[fi] != e.w.scc[e.fi]
+}
+
+func (w *World) helperInlinable(fi *FuncInfo) bool {
 	if fi.Contract != nil || fi.Decl == nil || fi.Decl.Body == nil || fi.Decl.Recv != nil || fi.Decl.Type.TypeParams != nil {
 		return false
 	}
-	if e.w.selfRec[fi] || e.w.scc[fi] == e.w.scc[e.fi] {
+	if w.selfRec[fi] {
 		return false
 	}
 	sig := fi.Obj.Type().(*types.Signature)
 	if sig.Variadic() {
 		return false
+	}
+	for i := 0; i < sig.Params().Len(); i++ {
+		if _, isFn := sig.Params().At(i).Type().Underlying().(*types.Signature); isFn {
+			return false
+		}
 	}
 	ok := true
 	ast.Inspect(fi.Decl.Body, func(n ast.Node) bool {
@@ -60,6 +69,84 @@ func (e *Exec) autoInlinable(fi *FuncInfo) bool {
 		return ok
 	})
 	return ok
+}
+
+// inlinedEverywhere: the helper has call sites, and every one of them is at a position where the executor runs the
+// helper's body in the caller's context (a call statement, the only right-hand side of an assignment, the only result of
+// a return, the condition of an if), inside a function that is itself executed. Its run-time checks are then obligations
+// of its callers, with the callers' path conditions, and the sweep does not demand them for arbitrary arguments.
+func (w *World) inlinedEverywhere(fi *FuncInfo) bool {
+	return w.inlinedEverywhereRec(fi, map[*FuncInfo]bool{})
+}
+
+func (w *World) inlinedEverywhereRec(fi *FuncInfo, busy map[*FuncInfo]bool) bool {
+	if !w.helperInlinable(fi) || busy[fi] {
+		return false
+	}
+	busy[fi] = true
+	defer delete(busy, fi)
+	sites := 0
+	ok := true
+	for _, g := range w.Funcs {
+		if g.Decl == nil || g.Decl.Body == nil {
+			continue
+		}
+		info := g.Pkg.TypesInfo
+		good := map[*ast.CallExpr]bool{}
+		strip := func(x ast.Expr) ast.Expr {
+			for {
+				switch y := x.(type) {
+				case *ast.ParenExpr:
+					x = y.X
+					continue
+				case *ast.UnaryExpr:
+					if y.Op == token.NOT {
+						x = y.X
+						continue
+					}
+				}
+				return x
+			}
+		}
+		mark := func(x ast.Expr) {
+			if c, isCall := x.(*ast.CallExpr); isCall {
+				good[c] = true
+			}
+		}
+		ast.Inspect(g.Decl.Body, func(n ast.Node) bool {
+			switch y := n.(type) {
+			case *ast.ExprStmt:
+				mark(y.X)
+			case *ast.AssignStmt:
+				if len(y.Rhs) == 1 {
+					mark(y.Rhs[0])
+				}
+			case *ast.ReturnStmt:
+				if len(y.Results) == 1 {
+					mark(y.Results[0])
+				}
+			case *ast.IfStmt:
+				mark(strip(y.Cond))
+			case *ast.FuncLit:
+				return false
+			}
+			return true
+		})
+		ast.Inspect(g.Decl.Body, func(n ast.Node) bool {
+			c, isCall := n.(*ast.CallExpr)
+			if !isCall || w.calleeOfCall(c, info) != fi {
+				return true
+			}
+			sites++
+			if !good[c] || g == fi || w.scc[g] == w.scc[fi] {
+				ok = false
+			} else if g.Contract == nil && !w.inlinedEverywhereRec(g, busy) {
+				ok = false
+			}
+			return true
+		})
+	}
+	return ok && sites > 0
 }
 
 // pre: terms for parameters that are not taken from the call's argument list (library models, see modelFor).
